@@ -16,6 +16,7 @@ import (
 	"path/filepath"
 	"reflect"
 	"regexp"
+	"sort"
 	"strconv"
 	"strings"
 	"text/template"
@@ -324,6 +325,16 @@ func (c *RootConfig) Initialize(ctx context.Context) error {
 		}
 	}
 
+	// Sub-packages inherit the config of their nearest recursive ancestor. Because
+	// mergeConfigs never overwrites values that are already set, the deepest
+	// recursive packages have to be processed first. The order must not depend
+	// on map iteration.
+	sort.Slice(recursivePackages, func(i, j int) bool {
+		if len(recursivePackages[i]) != len(recursivePackages[j]) {
+			return len(recursivePackages[i]) > len(recursivePackages[j])
+		}
+		return recursivePackages[i] < recursivePackages[j]
+	})
 	for _, recursivePackageName := range recursivePackages {
 		pkgLog := log.With().Str(logging.LogKeyPackagePath, recursivePackageName).Logger()
 		pkgCtx := pkgLog.WithContext(ctx)
